@@ -1,8 +1,7 @@
 import CashewsVerif.Model.Decor.Outcome
 /-
 Model of `cashews/decorators/cache/iterator.py` (`iterator`, after the repairs 881ce85,
-8b4a058, 78c3934 and with the same `_ttl > executing_time` guard on the exception path) over the
-ideal TTL map.  The wrapped async generator is a script `Nat → IBeh`: the n-th run (counted over
+8b4a058, 78c3934, 5b10c85) over the ideal TTL map.  The wrapped async generator is a script `Nat → IBeh`: the n-th run (counted over
 the whole history) performs `script n`.  The consumer drains every stream it is given.
 Mathlib-free.
 -/
@@ -43,9 +42,10 @@ def excOk (c : Cond) (cls : Nat) : Bool :=
         except StopAsyncIteration: break
         except Exception as exc:
             cond_res = condition(exc, args, kwargs, key=_cache_key)
-            if _to_cache and cond_res and isinstance(cond_res, Exception)  [and _ttl > executing_time]:
+            executing_time = time.monotonic() - start
+            if _to_cache and cond_res and isinstance(cond_res, Exception) and _ttl > executing_time:
                 await backend.set(_cache_key + f":{chunk_number}", RaiseException(exc), expire=_ttl)
-                await backend.set(_cache_key, chunk_number + 1, expire=_ttl - time.monotonic() + start)
+                await backend.set(_cache_key, chunk_number + 1, expire=_ttl - executing_time)
             raise exc
         yield chunk
         if _to_cache and condition(chunk, args, kwargs, key=_cache_key):
@@ -103,6 +103,7 @@ structure Run where
   key : Nat
   start : Nat
   outs : List Res          -- everything the consumer received, a final exception included
+  fin : Nat                -- instant at which the run ended
   deriving DecidableEq, Repr
 
 structure St where
@@ -130,7 +131,7 @@ def step (cfg : Cfg) (script : Nat → IBeh) (s : St) : Op → St × Out
       let n := s.runs.length
       let b := script n
       let (t', rs) := body cfg.cond (cfg.ttl k) k n s.store.now b.findur b.steps s.store true 0
-      ({ store := t', runs := s.runs ++ [⟨k, s.store.now, rs⟩] }, .got rs false)
+      ({ store := t', runs := s.runs ++ [⟨k, s.store.now, rs, t'.now⟩] }, .got rs false)
 
 def run (cfg : Cfg) (script : Nat → IBeh) (s : St) : List Op → St × List Out
   | [] => (s, [])
